@@ -74,17 +74,16 @@ ENDBLOCK_GEN = [
     cfg("genprune", Q, C_PRUNE, "Stake2", ["eth"], rej_sample=3),
     cfg("gengov", Q, C_GOV, "Stake2", ["eth"], rej_sample=3),
     # thorough: the same graphs with every rejected operation, on three chain modules (tron: own address format,
-    # signature prefix and checkpoint encoders), plus the larger configurations
+    # signature prefix and checkpoint encoders), plus the larger configurations (two batches and three proposals are
+    # model-checked only: mcbatch2, mcgov3)
     cfg("gencallT", T, C_CALL, "Stake2", ALL3),
     cfg("genbatchT", T, C_BATCH, "Stake2", ALL3),
     cfg("genpruneT", T, C_PRUNE, "Stake2", ALL3),
     cfg("gengovT", T, C_GOV, "Stake2", ["eth"]),
     cfg("genboth", T, C_BOTH, "Stake2", ["eth"], rej_sample=2),
-    cfg("genthree", T, C_THREE, "Stake3", ["tron"], rej_sample=2),
+    cfg("genthree", T, C_THREE, "Stake3", ["tron"], rej_sample=1),
     cfg("gencall2", T, C_CALL2, "Stake2", ["bsc"], rej_sample=2),
-    cfg("genbatch2", T, C_BATCH2, "Stake2", ["tron"], rej_sample=2),
     cfg("genw3", T, C_W3, "Stake2", ["eth"]),
-    cfg("gengov3", T, C_GOV3, "Stake2", ["eth"], rej_sample=2),
 ]
 
 ASSUMPTIONS = [
